@@ -80,8 +80,23 @@ FeatValid(v) ==
       /\ Len(items) <= 1
 FeatArgOk(e) == IF FeatValid(e.value) THEN e.code = 0 ELSE e.code = 2
 
+(* ---- sub-command / file-extension dispatch of `lace run|debug|<bare path>` (beyond the listed   *)
+(* properties; src/main.rs run()): .asm is assembled, .lc3/.obj loaded, anything else refused;    *)
+(* the debugger needs a source file                                                               *)
+DispatchOk(e) ==
+  LET refused == \/ ~e.exists
+                 \/ e.ext \notin {"asm", "lc3", "obj"}
+                 \/ (e.cmd = "debug" /\ e.ext # "asm")
+  IN  IF refused THEN e.code = 1 /\ ~e.ran ELSE e.code = 0 /\ e.ran
+
+(* a re-check of `lace watch` reports what `lace check` would (C07); "none" = no re-check was   *)
+(* observed in time (file-system event not delivered) - recorded, never counted as agreement     *)
+WatchOk(e) == e.seen \in {"none", IF e.valid THEN "success" ELSE "error"}
+
 Explains(e) ==
   CASE e.ev = "transport" -> TransportOk(e)
+    [] e.ev = "watch"     -> WatchOk(e)
+    [] e.ev = "dispatch"  -> DispatchOk(e)
     [] e.ev = "compile"   -> CompileOk(e)
     [] e.ev = "loadfile"  -> LoadOk(e)
     [] e.ev = "runpair"   -> PairOk(e)
